@@ -302,7 +302,16 @@ def run(ctx):
     ddu = du_of(dec)
     dev = BitEval(dec, dec_input)
     dbranches = branch_blocks(dec, lambda du, v: True)
-    for n in (2, 1, 0):
+    def _arrays_of(blocks_):
+        return [s_ for b_ in dcfg.rpo() if b_ in (blocks_ or ()) for s_ in dcfg.blocks[b_]["stmts"]
+                if s_["k"] == "assign" and s_["rv"]["k"] == "aggregate" and s_["rv"].get("agg") == "array" and s_["rv"].get("elem_ty") == "u8"]
+    shape_present = any(len(_arrays_of(dbranches.get(n_))) == 1 for n_ in (2, 1, 0))
+    if not shape_present:
+        # not one branch per padding count each returning its own bytes (e.g. one table of sextets filled in a loop, the result cut to
+        # length): the bit-level evaluation below is written for the branch form only. Not decided, and said so; nothing is reported.
+        r2.floor = 0
+        r2.note("decode_sequence is not written as one branch per padding count: the recombination of the 6-bit values is not decided by this rule for this shape")
+    for n in ((2, 1, 0) if shape_present else ()):
         blocks = dbranches.get(n)
         if not blocks:
             r2.violate("C18|R2|pad-%d|no-branch" % n, "decode_sequence has no branch for %d padding characters" % n, dec.file, dec.span["line"], DEC_SEQ)
